@@ -995,16 +995,17 @@ class Exec:
         def call():
             for b in objs:   # a consecutive group is freed as a whole
                 if comp:
-                    b.free(lambda x: ['/sync', 9])
+                    # the completion function is given the buffer as it is being freed
+                    b.free(lambda x: ['/b_query', x.bufnum])
                 else:
                     b.free()
 
         def post(res, exc, events):
             rec['freed'] += 1
             if first:
-                cm = Comp([('/sync', [9])]) if comp else 0
                 self.expect(site, 'free', events,
-                            [('msg', [('/b_free', [k, cm])]) for k in nums],
+                            [('msg', [('/b_free', [k, Comp([('/b_query', [k])]) if comp else 0])])
+                             for k in nums],
                             exc, 'freeing buffer(s) %r' % (nums,))
             else:
                 frees = [sc.values(m) for ev in events for m in ev['msgs']
